@@ -20,7 +20,7 @@ RULE = (
     "sketch of pairwise merging) plus Hypothesis-drawn (items, n_workers 1..9, schedule, combination) cases. Items are dicts describing lists of keys, or plain values incl. falsy ones (0, '', b'', [], ()) (possibly "
     "empty, sharing keys, NUL/long keys), updated by list, dict-with-multiplicities or ngram calls; callbacks return generated record counts (also "
     "through a **kwargs-dependent callback). Oracle per run: every item placed on the queue and delivered exactly once; returned sketches identified by class (an undocumented tuple order is only counted); HyperLogLog registers == sequential sketch; n_added of cms/hh == total multiplicity; n_records == sum of callback "
-    "returns; linear cms within the C01 bounds, log cms above the C06 lower bound, hh within C03/C04 bounds w.r.t. the whole stream. Real spawned "
+    "returns; linear cms within the C01 bounds, log cms above the C06 lower bound, hh within C03/C04 bounds w.r.t. the whole stream. Interleaved runs: the same code under a cooperative-thread context (bounded blocking queue, concurrent filler, seeded scheduler with 5 policies) for Hypothesis-drawn cases with up to 40 items and 6 workers. Real spawned "
     "runs (quick 1, thorough 4; a side file records (pid, item)) validate the context. Non-trivial: >= 2 workers receive items and n_workers >= 3 "
     "or odd. Distinct = distinct (items, n_workers, schedule, combination, items_as)."
 )
@@ -151,6 +151,37 @@ def _hyp_shard(arg):
     return rec
 
 
+POLICIES = ["random", "random", "parent_last", "parent_first", "filler_slow", "low_worker_first"]
+
+
+def _coop_shard(arg):
+    """Real interleavings: every process is a cooperative thread, the queue is bounded (3*n_workers) and blocks,
+    the filler runs concurrently with the workers; a seeded scheduler decides who runs at every queue operation."""
+    seed, shard, n = arg
+    rec = common.Recorder()
+    holder = {}
+    cbs = combos()
+
+    @st.composite
+    def cases(draw):
+        n_items = draw(st.one_of(st.integers(0, 8), st.integers(8, 40)))
+        spec = []
+        for _ in range(n_items):
+            kidx = draw(st.lists(st.integers(0, 9), max_size=3))
+            spec.append((kidx, draw(st.sampled_from(["list", "dict", "ngram", "list", "int", "str", "rawlist"])), draw(st.integers(0, 5)), draw(st.lists(st.integers(0, 8), max_size=3))))
+        return {"items": mk_items(spec), "n_workers": draw(st.integers(1, 6)), "schedule": {}, "combo": draw(st.sampled_from(cbs)), "items_as": draw(st.sampled_from(["list", "list", "tuple", "generator"])),
+                "cb": draw(st.sampled_from(["plain", "kw"])), "ctx": "coop", "sched_seed": draw(st.integers(0, 2**32 - 1)), "policy": draw(st.sampled_from(POLICIES))}
+
+    @given(case=cases())
+    def test(case):
+        holder["case"] = case
+        obs = run_case(case)
+        rec.case(case, obs.get("workers_used", 0) >= 2, [f"workers={case['n_workers']}", "interleaved_runs", f"policy={case['policy']}", f"workers_used={min(obs.get('workers_used', 0), 4)}"])
+
+    common.run_given(test, common.derive_seed(seed, "C08-coop", shard), n, holder, rec)
+    return rec
+
+
 # ------------------------------------------------------------------ real spawned runs
 
 REAL_SCRIPT = r"""
@@ -265,6 +296,8 @@ def run(tier, seed, rec):
     common.pool_merge(_special_task, [(k, s) for k in (5, 6, 7, 8, 9) for s in ((1, 3) if quick else (0, 1, 3))], rec)
     total, shards = (480, 16) if quick else (8000, 32)
     common.pool_merge(_hyp_shard, [(seed, i, total // shards) for i in range(shards)], rec)
+    total, shards = (320, 16) if quick else (6400, 32)
+    common.pool_merge(_coop_shard, [(seed, i, total // shards) for i in range(shards)], rec)
     for h in real:
         finish_real(h, rec, 900 if quick else 1800)
 
